@@ -338,6 +338,7 @@ func checkC20(c *Ctx) {
 	validateTraces(c, "SaveTrace", saveTraceCfg, items, 3000, false, func(it traceItem, res *TLCResult) {
 		c.Fail(Finding{Sig: "save-" + res.Violated, Input: it.Key, What: fmt.Sprintf("predicate %s of SaveTrace.tla fails: %s (%s)", res.Violated, truncate(string(it.Trace), 400), it.Key), Replay: it.Replay})
 	})
+	c20Corpus(c)
 	c20TwoPass(c)
 	c.Set("rule", "case = one package (1-3 files from ten sources, 1-2 directories, each file unedited, grown or shrunk by an edit) saved with a resolver failing while file i is printed (i = 0..n); non-trivial = a failure or an edit; distinct by package + edit mask + failure position")
 }
@@ -443,4 +444,83 @@ func c20TwoPass(c *Ctx) {
 	fb := byName["b.go"]
 	fb.Decls = fb.Decls[:1] // the import declaration stays in the tree, its only user goes
 	step("references removed", map[string]string{"a.go": srcs["a.go"], "b.go": "package pkg\n"})
+}
+
+// c20Corpus: unedited identity on real files. Every gofmt-canonical corpus file that the syntax-based
+// resolver accepts (no dot-import) and that does not import one path twice (K4, under C08) is written to
+// a directory, decorated with import management, put into a hand-built Package and saved: the bytes on
+// disk are those that were there, and nothing else in the directory is touched.
+func c20Corpus(c *Ctx) {
+	files := corpus(c, map[bool]int{true: 40, false: 600}[c.Quick()])
+	type res struct{ sig, what string }
+	out := make([]res, len(files))
+	parallel(len(files), func(i int) {
+		f := files[i]
+		if len(f.Src) > 40000 || !isCanonical(f.Src) || dupImport(f.Src) || bytes.Contains(f.Src, []byte("import \"C\"")) {
+			return
+		}
+		root, err := os.MkdirTemp("", "dstv-savec-")
+		if err != nil {
+			return
+		}
+		defer os.RemoveAll(root)
+		p := filepath.Join(root, "x.go")
+		other := filepath.Join(root, "other.txt")
+		os.WriteFile(p, f.Src, 0644)
+		os.WriteFile(other, []byte("keep"), 0644)
+		fset := token.NewFileSet()
+		d := decorator.NewDecoratorWithImports(fset, "example.com/pkg", goast.WithResolver(guess.New()))
+		af, err := parser.ParseFile(fset, p, nil, parser.ParseComments)
+		if err != nil {
+			return
+		}
+		var df *dst.File
+		if msg := guard(func() { df, err = d.DecorateFile(af) }); msg != "" || err != nil {
+			return // refused (dot-import) or a panic that C15 / C09 report
+		}
+		pkg := &decorator.Package{Package: &packages.Package{PkgPath: "example.com/pkg"}, Decorator: d, Dir: root, Syntax: []*dst.File{df}}
+		var serr error
+		msg := guard(func() { serr = pkg.SaveWithResolver(guess.New()) })
+		key := "corpus-save|" + f.Path
+		c.Eval(key, true)
+		switch {
+		case msg != "":
+			out[i] = res{"save-panics", msg}
+		case serr != nil:
+			out[i] = res{"save-unedited-fails", serr.Error()}
+		default:
+			after, _ := os.ReadFile(p)
+			oth, _ := os.ReadFile(other)
+			names, _ := os.ReadDir(root)
+			if !bytes.Equal(after, f.Src) {
+				switch {
+				case unindentClosingComments(after) == unindentClosingComments(f.Src):
+					// K6 (recorded under C01): the only difference is a comment aligned with the closing bracket below it
+					out[i] = res{"comment-before-closing-bracket-reindented", diffAt(f.Src, after)}
+				case unindentLineDirectives(after) == unindentLineDirectives(f.Src):
+					// K5: a //line directive in column 1 inside indented code
+					out[i] = res{"line-directive-reindented", diffAt(f.Src, after)}
+				default:
+					out[i] = res{"save-unedited-file-changed", diffAt(f.Src, after)}
+				}
+			} else if string(oth) != "keep" || len(names) != 2 {
+				out[i] = res{"save-touches-other-files", fmt.Sprintf("%d entries in the directory", len(names))}
+			}
+		}
+	})
+	n := 0
+	for i, r := range out {
+		if r.sig != "" {
+			in := "corpus-save|" + files[i].Path
+			if r.sig == "comment-before-closing-bracket-reindented" {
+				in = "closing-aligned|" + in
+			}
+			if r.sig == "line-directive-reindented" {
+				in = "line-directives|" + in
+			}
+			c.Fail(Finding{Sig: r.sig, Input: in, What: r.what + " (" + files[i].Path + ")", Replay: obj{"kind": "none"}})
+		}
+		n++
+	}
+	c.Set("corpus_files_saved", n)
 }
